@@ -108,6 +108,34 @@ func classifyMapLoop(c *Ctx, fi *FuncInfo, rs *ast.RangeStmt, depth int) (string
 				if calleeOrderInsensitive(c, f, depth) {
 					return true
 				}
+				// a callee that only touches what it is given, called on per-element data
+				if calleeTouchesOnlyArgs(c, f) {
+					perElement := true
+					for _, a := range ce.Args {
+						if _, isC := info.Types[a]; isC && info.Types[a].Value != nil {
+							continue
+						}
+						id := rootIdent(a)
+						if id == nil {
+							perElement = false
+							continue
+						}
+						o := info.Uses[id]
+						if o == valObj || o == keyObj || declaredInLoop(o) {
+							continue
+						}
+						// outer variables of basic type are only read by value
+						if tv := info.TypeOf(a); tv != nil {
+							if _, isBasic := tv.Underlying().(*types.Basic); isBasic {
+								continue
+							}
+						}
+						perElement = false
+					}
+					if perElement {
+						return true
+					}
+				}
 				sensitive = append(sensitive, "call "+name)
 				return true
 			}
@@ -621,4 +649,54 @@ func emitMapLoops(c *Ctx, r *Report, rule string, loops []mapLoop, filter func(m
 		}
 	}
 	return n
+}
+
+// calleeTouchesOnlyArgs: the function writes only through its parameters and
+// locals, reads no mutable package-level state and calls only builtins / pure
+// library functions.
+func calleeTouchesOnlyArgs(c *Ctx, f *types.Func) bool {
+	fi := funcDeclOf(c, f)
+	if fi == nil {
+		return false
+	}
+	info := fi.Pkg.TypesInfo
+	ok := true
+	ast.Inspect(fi.Decl.Body, func(n ast.Node) bool {
+		switch t := n.(type) {
+		case *ast.AssignStmt:
+			for _, l := range t.Lhs {
+				id := rootIdent(l)
+				if id == nil {
+					ok = false
+					continue
+				}
+				o := info.Uses[id]
+				if o == nil {
+					o = info.Defs[id]
+				}
+				if v, isVar := o.(*types.Var); isVar && v.Pkg() != nil && v.Parent() == v.Pkg().Scope() {
+					ok = false
+				}
+			}
+		case *ast.CallExpr:
+			if isConversion(info, t) {
+				return true
+			}
+			name := calleeName(info, t)
+			if strings.HasPrefix(name, "builtin.") || pureStdlib(name) {
+				return true
+			}
+			ok = false
+		case *ast.GoStmt, *ast.SendStmt, *ast.DeferStmt:
+			ok = false
+		case *ast.Ident:
+			if v, isVar := info.Uses[t].(*types.Var); isVar && !v.IsField() && v.Pkg() != nil && v.Parent() == v.Pkg().Scope() {
+				if len(writersOfGlobal(c, v)) > 0 {
+					ok = false
+				}
+			}
+		}
+		return true
+	})
+	return ok
 }
